@@ -35,6 +35,7 @@ import warnings
 from collections.abc import Mapping, Sequence
 
 from pywbem import CIMInstance, CIMInstanceName, CIMClass, CIMClassName, \
+    CIMProperty, \
     CIMParameter, CIMError, CIM_ERR_NOT_FOUND, CIM_ERR_INVALID_PARAMETER, \
     CIM_ERR_INVALID_CLASS, CIM_ERR_METHOD_NOT_FOUND, cimtype, \
     ToleratedSchemaIssueWarning
@@ -366,8 +367,14 @@ class ProviderDispatcher(BaseProvider):
             for pn in property_list:
                 if pn not in modified_instance:
                     # If the property in the class does not have a default
-                    # value, it is None.
-                    modified_instance[pn] = creation_class.properties[pn].value
+                    # value, it is None. A CIMProperty object is used because
+                    # the CIM type cannot be inferred from a value of None.
+                    cl_prop = creation_class.properties[pn]
+                    modified_instance[pn] = CIMProperty(
+                        cl_prop.name, cl_prop.value, type=cl_prop.type,
+                        reference_class=cl_prop.reference_class,
+                        embedded_object=cl_prop.embedded_object,
+                        is_array=cl_prop.is_array)
 
             # Remove properties from modified_instance that are not in
             # PropertyList.
